@@ -383,4 +383,49 @@ example :
     binop, c2_exV]
   decide +kernel
 
+
+/-! ### HEAD: the guard of MarkovProduct.eager_subs / Scatter.eager_subs establishes `noSeqClash` -/
+
+theorem c2_mlookup_mem {V : Type} {σ : List (Name × MVal V)} {k : Name} {v : MVal V} (h : mlookup σ k = some v) :
+    (k, v) ∈ σ := by
+  induction σ with
+  | nil => cases h
+  | cons p r ih =>
+    obtain ⟨k', v'⟩ := p
+    simp only [mlookup] at h
+    split at h
+    · rename_i e; cases h; subst e; simp
+    · exact List.mem_cons_of_mem _ (ih h)
+
+theorem seqClash_false_noSeqClash {V : Type} (σ : List (Name × MVal V)) (h : seqClash σ = false) : noSeqClash σ := by
+  intro k x hk f hf
+  have hm := c2_mlookup_mem hk
+  have : seqClash σ = true := by
+    unfold seqClash
+    apply List.any_eq_true.mpr
+    exact ⟨(k, MVal.var x), hm, by simp [hf]⟩
+  rw [h] at this; cases this
+
+/-- **HEAD**: whenever `MarkovProduct.eager_subs` / `Scatter.eager_subs` returns a value (does not decline), it is the
+    simultaneous substitution — the side condition of `mp_subs_sem` is now checked by the code itself. -/
+theorem mp_subs_head_sem {V : Type} (m : MP V) (σ : List (Name × MVal V)) (env : Name → V) (v : V)
+    (hkeys : ∀ k, nlookup m.stepNames k = none → mlookup σ k = none)
+    (h : m.eagerSubsHead σ env = some v) : v = m.sem (simEnv σ env) := by
+  unfold MP.eagerSubsHead at h
+  split at h
+  · cases h
+  · rename_i hg
+    have hc : seqClash σ = false := by
+      cases hs : seqClash σ
+      · rfl
+      · simp [hs] at hg
+    cases h
+    exact mp_subs_sem m σ env (seqClash_false_noSeqClash σ hc) hkeys
+
+/-- On the witness of the old behaviour HEAD declines. -/
+theorem mp_subs_head_declines_witness :
+    (MP.mk [("a0", "a"), ("b0", "b")] (fun e : Name → Nat => 10 * e "a0" + e "b0")).eagerSubsHead
+      [("a", MVal.var "b"), ("b", MVal.val (fun _ => 0))] (fun _ => 1) = none := by
+  decide
+
 end FV.Props.C04
